@@ -396,7 +396,10 @@ def ld_case(rng):
     for s_, x in enumerate(sorted(rng.sample(range(a["L"]), rng.randint(2, a["L"])))):
         a["sites"].append(dict(pos=x, anc=0))
         a["muts"].append(dict(site=s_, node=rng.randrange(len(a["time"])), der=1, parent=-1, time=-1))
-    ts = gen.build_tables(a).tree_sequence()
+    tb_ = gen.build_tables(a)
+    if rng.random() < 0.4:
+        gen.add_user_flags(tb_, rng)
+    ts = tb_.tree_sequence()
     if ts.num_samples < 2:
         return None
     ld = tskit.LdCalculator(ts)
@@ -550,7 +553,10 @@ def run():
         if len(S) < 2:
             continue
         # allele tokens are rendered either as single letters or as strings that are prefixes of one another (indel-style alleles)
-        ts = gen.build_tables(a, alleles=gen.ALLELES if rng.random() < 0.5 else PREFIX_ALLELES).tree_sequence()
+        tb_ = gen.build_tables(a, alleles=gen.ALLELES if rng.random() < 0.5 else PREFIX_ALLELES)
+        if rng.random() < 0.4:
+            gen.add_user_flags(tb_, rng)      # user flag bits never matter
+        ts = tb_.tree_sequence()
         # chunking by tree for this ts
         for kk in (1, 2, 3, 8):
             ch = ts._chunk_sequence_by_tree(kk)
